@@ -3,7 +3,7 @@
 import sys, glob
 sys.path.insert(0, '/verif/lib'); sys.path.insert(0, '/verif/harness/common')
 import vf, srcsets_real
-h = {'name': 'dbg', 'src': sys.argv[1], 'entry': sys.argv[2], 'repo_srcs': srcsets_real.REAL, 'defines': [a[2:] for a in sys.argv[3:] if a.startswith('-D')], 'override': True}
+h = {'name': 'dbg', 'src': sys.argv[1], 'entry': sys.argv[2], 'repo_srcs': srcsets_real.REAL + ['src/pop/storage/adaptors/block_provider_impl.cpp'], 'defines': [a[2:] for a in sys.argv[3:] if a.startswith('-D')], 'override': True}
 exe = vf.build_native(h, '/verif/.work/dbg')
 t = vf.run_native(exe, [int(a) for a in sys.argv[3:] if not a.startswith('-D')], '/verif/.work/dbg')
 print({k: t[k] for k in ('end', 'observes', 'covers', 'failed')}); print(t['stderr'][-1500:])
